@@ -1173,6 +1173,11 @@ def family_c05(tier, seed):
         ("p:append-derive-chain", [From("t"), Select("a", "b"), Derive(z=a + b), Derive(w=C("z") * 2), Select("b", "w"), Append([From("u"), Select("a", "b")])]),
         ("p:append-derive-permute-filter", [From("t"), Select("a", "b"), Derive(z=a + b), Select("z", "a"), Append([From("u"), Select("a", "b")]),
                                             Select("a", "z"), Filter(C("z") > 0)]),
+        ("p:alias-case-variant", [From("t"), Select("a", "b", A=a)]),
+        ("p:alias-case-variant-only", [From("t"), Select("b", A=a)]),
+        ("p:alias-case-variant-derive", [From("t"), Select("a", "b"), Derive(B=b)]),
+        ("p:alias-case-variant-split", [From("t"), Select("a", "b", A=a), Sort("b"), Take(1), Filter(C("A") > 0)]),
+        ("p:alias-same-name", [From("t"), Select("b", a=a)]),
         ("p:wild-excl", [From("t"), SelectNot("b")]),
         ("p:wild-excl2", [From("t"), SelectNot("a", "c")]),
         ("p:join-wild-excl-left", [From("t"), J(), SelectNot("t.b")]),
